@@ -859,3 +859,161 @@ Proof.
   exists (st_of ex_cfg (ex_tr_running ++ [LGate [91;93]%N (ORes [50%N])])). eexists _, _, _, _.
   split; [apply reach_st_of; vm_compute; discriminate|]. compute. repeat split; reflexivity.
 Qed.
+
+(** * The life of one task, transition by transition *)
+Inductive tstep (t : task) : task -> Prop :=
+| ts_cancel : tstep t (t <| t_cancelled := true |>)
+| ts_cancel_wait : t_st t = TWaiting -> tstep t (t <| t_st := TDone (Some cancel_err) |>)
+| ts_acq_cancelled : t_st t = TAtAcquire -> tstep t (t <| t_st := TDone (Some cancel_err) |>)
+| ts_wait : t_st t = TAtAcquire -> tstep t (t <| t_st := TWaiting |>)
+| ts_run : t_st t = TAtAcquire \/ t_st t = TWaiting -> t_builtin t = false -> tstep t (t <| t_st := TRunning |>)
+| ts_builtin : t_st t = TAtAcquire \/ t_st t = TWaiting -> t_builtin t = true ->
+    tstep t (t <| t_st := TAtHandled (ORes []) |>)
+| ts_gate o : t_st t = TRunning -> tstep t (t <| t_st := TAtHandled o |>)
+| ts_handled o : t_st t = TAtHandled o -> tstep t (t <| t_st := TDone (body_of_outcome t o) |>).
+
+Inductive tsteps : task -> task -> Prop :=
+| tss_refl t : tsteps t t
+| tss_step t t' t'' : tstep t t' -> tsteps t' t'' -> tsteps t t''.
+
+Lemma tsteps_trans a b d : tsteps a b -> tsteps b d -> tsteps a d.
+Proof. induction 1; auto. intros. econstructor; eauto. Qed.
+Lemma tsteps_one a b : tstep a b -> tsteps a b.
+Proof. intros. econstructor; eauto. constructor. Qed.
+
+Definition lext := list_ext tsteps.
+Lemma lext_refl l : lext l l.
+Proof. apply list_ext_refl. constructor. Qed.
+Lemma lext_trans a b d : lext a b -> lext b d -> lext a d.
+Proof. apply list_ext_trans. apply tsteps_trans. Qed.
+Lemma lext_upd k f l : (forall x, nth_error l k = Some x -> tsteps x (f x)) -> lext l (upd_nth k f l).
+Proof. apply list_ext_upd. constructor. Qed.
+
+Lemma cancel_fn_tsteps t : tsteps t (cancel_fn t).
+Proof.
+  unfold cancel_fn. destruct (t_st t) eqn:St; try (apply tsteps_one; constructor).
+  eapply tss_step; [apply ts_cancel|]. apply tsteps_one. apply ts_cancel_wait. auto.
+Qed.
+
+Lemma cancel_task_lext k s : lext (tasks s) (tasks (cancel_task k s)).
+Proof. rewrite cancel_task_tasks. apply lext_upd. intros; apply cancel_fn_tsteps. Qed.
+
+Lemma fold_cancel_lext (l : list (bytes * nat)) : forall s,
+  lext (tasks s) (tasks (fold_left (fun st p => cancel_task (snd p) st) l s)).
+Proof.
+  induction l as [|p l IH]; intros s; cbn; [apply lext_refl|].
+  eapply lext_trans; [apply cancel_task_lext|apply IH].
+Qed.
+
+Lemma release_ids_lext ts : forall s, lext (tasks s) (tasks (release_ids ts s)).
+Proof.
+  induction ts as [|a r IH]; intros s; cbn [release_ids]; [apply lext_refl|].
+  destruct (t_hasctx a && negb (is_note a)); [|apply IH].
+  destruct (assoc (t_id a) (used s)) as [owner|]; [|apply IH].
+  pose proof (IH (cancel_task owner s <| used ::= assoc_del (t_id a) |>)) as X.
+  change (tasks (cancel_task owner s <| used ::= assoc_del (t_id a) |>)) with (tasks (cancel_task owner s)) in X.
+  eapply lext_trans; [apply (cancel_task_lext owner)|exact X].
+Qed.
+
+Lemma stop_locked_lext c s s' os : stop_locked c s = (s', os) -> lext (tasks s) (tasks s').
+Proof.
+  unfold stop_locked. destruct (running s); cbn [negb]; [|intros [= <- _]; apply lext_refl].
+  intros H.
+  match type of H with (?x, _) = _ => assert (Hs : s' = x) by congruence end. clear H.
+  match type of Hs with context [fold_left ?f ?l ?s0] =>
+    pose proof (fold_cancel_lext l s0) as Fc; set (s4 := fold_left f l s0) in *; set (s3 := s0) in * end.
+  assert (T3 : tasks s3 = tasks s).
+  { unfold s3. destruct (work_closed (s <| closes ::= S |> <| inq ::= stop_queue |>)); reflexivity. }
+  rewrite T3 in Fc. clearbody s4. clearbody s3. subst s'. destruct (c_unblock _); exact Fc.
+Qed.
+
+Lemma grant_lext fuel s acc : wait_ok s -> lext (tasks s) (tasks (fst (grant fuel s acc))).
+Proof.
+  intros W0.
+  apply (grant_ind (fun s1 _ => wait_ok s1 /\ lext (tasks s) (tasks s1))); [|split; [auto|apply lext_refl]].
+  intros s1 acc1 k r fr t [[ND Wt] X1] Hw Hf Ht. rewrite Hw in ND, Wt.
+  destruct (Wt k (or_introl eq_refl)) as (t0 & Et0 & St0). rewrite Ht in Et0. injection Et0 as <-.
+  split.
+  - split; rewrite grant1_wait; [inversion ND; auto|].
+    intros j Hj. rewrite (grant1_tasks _ _ _ _ _ Ht). rewrite nth_error_upd_nth_neq.
+    + apply Wt. right; auto.
+    + intros <-. inversion ND; auto.
+  - eapply lext_trans; [exact X1|]. rewrite (grant1_tasks _ _ _ _ _ Ht). apply lext_upd.
+    intros x Ex. rewrite Ht in Ex. injection Ex as <-. apply tsteps_one.
+    destruct (t_builtin t) eqn:B; [apply ts_builtin|apply ts_run]; auto.
+Qed.
+
+Lemma raw_lext s l s' os : inv s -> step_raw s l = Some (s', os) -> lext (tasks s) (tasks s').
+Proof.
+  intros I H. destruct (frame_label l) eqn:Fl.
+  { apply step_raw_frame in H as (C & _); auto. unfold core in C. injection C as T _. rewrite T. apply lext_refl. }
+  destruct l; try discriminate Fl; unfold step_raw in H.
+  - destruct (negb (running s) && (wg s =? 0)); [|discriminate]. injection H as <- <-. apply lext_refl.
+  - destruct (find_idx _ 0 (tasks s)) as [k|] eqn:F; [|discriminate].
+    destruct (nth_error (tasks s) k) as [t|] eqn:E; [|discriminate]. injection H as <- <-.
+    apply find_idx_some in F as (x & Ex & Px & _). rewrite Nat.sub_0_r, E in Ex. injection Ex as <-.
+    apply andb_true_iff in Px as [_ Px]. destruct (t_st t) eqn:St; try discriminate.
+    cbn. apply lext_upd. intros x Ex. rewrite E in Ex. injection Ex as <-. apply tsteps_one. apply ts_gate; auto.
+  - destruct (rd s) as [| |f|] eqn:Rd; try discriminate. injection H as H.
+    destruct f as [i|i|c].
+    3:{ cbn in H. destruct (stop_locked c s) as [s0 os0] eqn:St. injection H as <- <-.
+        apply stop_locked_lext in St. exact St. }
+    all: destruct (running s) eqn:Rn;
+      [ eapply read_cs_msg in H as (C & _); eauto; unfold core0 in C; injection C as T _; rewrite T; apply lext_refl
+      | cbn in H; rewrite Rn in H; cbn in H; injection H as <- <-; apply lext_refl ].
+  - destruct (dp s); try discriminate. injection H as <- <-.
+    unfold dequeue. destruct (inq s) as [|[b ms] q]; [destruct (running s); apply lext_refl|].
+    cbn. apply list_ext_app. constructor.
+  - destruct (dp s); try discriminate. injection H as <- <-. apply lext_refl.
+  - destruct (nth_error (tasks s) k) as [t|] eqn:E; [|discriminate].
+    destruct (t_st t) eqn:St; try discriminate.
+    destruct (negb (unit_running s t)); [discriminate|].
+    assert (X : forall x, tstep t (t <| t_st := x |>) ->
+              lext (tasks s) (upd_nth k (fun t => t <| t_st := x |>) (tasks s))).
+    { intros x Hx. apply lext_upd. intros y Ey. rewrite E in Ey. injection Ey as <-. apply tsteps_one; auto. }
+    destruct (t_cancelled t); [injection H as <- <-; apply X, ts_acq_cancelled; auto|].
+    destruct (sem_free s); [injection H as <- <-; apply X, ts_wait; auto|].
+    destruct (sem_wait s); [|injection H as <- <-; apply X, ts_wait; auto].
+    destruct (t_builtin t) eqn:B; injection H as <- <-; cbn; apply X; [apply ts_builtin|apply ts_run]; auto.
+  - destruct (nth_error (tasks s) k) as [t|] eqn:E; [|discriminate].
+    destruct (t_st t) eqn:St; try discriminate.
+    set (s0 := set_task k (fun t => t <| t_st := TDone (body_of_outcome t o) |>) s <| sem_free ::= S |>) in *.
+    assert (W0 : wait_ok s0).
+    { unfold wait_ok, s0; cbn. apply wait_ok_upd; [apply I|]. eapply wait_not_in; eauto; [apply I|congruence]. }
+    pose proof (grant_lext (S (length (sem_wait s0))) s0 [] W0) as G.
+    destruct (grant (S (length (sem_wait s0))) s0 []) as [s2 os2]. cbn [fst] in G.
+    assert (X0 : lext (tasks s) (tasks s0)).
+    { unfold s0. cbn. apply lext_upd. intros y Ey. rewrite E in Ey. injection Ey as <-.
+      apply tsteps_one. apply ts_handled; auto. }
+    assert (X2 : lext (tasks s) (tasks s2)) by (eapply lext_trans; eauto).
+    destruct (is_note t); [destruct (nbar s2)|]; injection H as <- <-; exact X2.
+  - destruct (nth_error (units s) u) as [un|] eqn:E; [|discriminate].
+    destruct (u_st un) eqn:Su; try discriminate.
+    pose proof (release_ids_lext (unit_tasks s u) s) as X.
+    destruct (u_chok un); cbn in H; injection H as <- <-; exact X.
+  - destruct (find_op n (ops s)) as [[n0|n0 id|n0 w m p]|]; try discriminate.
+    destruct (stop_locked SCStop (s <| ops ::= del_op n |>)) as [s0 os0] eqn:St. injection H as <- <-.
+    apply stop_locked_lext in St. exact St.
+  - destruct (find_op n (ops s)) as [[n0|n0 id|n0 w m p]|]; try discriminate.
+    injection H as <- <-. destruct (assoc id _) as [owner|]; [|apply lext_refl].
+    pose proof (cancel_task_lext owner (s <| ops ::= del_op n |>)) as X. exact X.
+Qed.
+
+Lemma keeps_lext a b : keeps_tasks a b -> lext (tasks a) (tasks b).
+Proof. intros K k t E. exists t. split; [apply K; auto|constructor]. Qed.
+
+Definition slext (a b : state) : Prop := lext (tasks a) (tasks b).
+
+Lemma step_lext c s l s' os : reachf c s -> step s l = Some (s', os) -> slext s s'.
+Proof.
+  apply (lift_step c slext (fun s => lext_refl (tasks s)) (fun a b d => lext_trans (tasks a) (tasks b) (tasks d))).
+  - intros a l0 b os0 Ra _ H. eapply raw_lext; eauto. eapply reachf_inv; eauto.
+  - intros a b os0 _ H. apply keeps_lext. eapply settle1_keeps; eauto.
+Qed.
+
+Lemma run_lext c tr s s' oss : reachf c s -> run s tr = Some (s', oss) -> slext s s'.
+Proof.
+  apply (lift_run c slext (fun s => lext_refl (tasks s)) (fun a b d => lext_trans (tasks a) (tasks b) (tasks d))).
+  - intros a l0 b os0 Ra _ H. eapply raw_lext; eauto. eapply reachf_inv; eauto.
+  - intros a b os0 _ H. apply keeps_lext. eapply settle1_keeps; eauto.
+Qed.
